@@ -16,7 +16,12 @@ func (k Keeper) CompleteBatch(ctx sdk.Context, requestContext types.RequestConte
 	requestContext.BatchState = types.BATCHCOMPLETED
 
 	if len(requestContext.ModuleName) != 0 {
+		// store the context before the module is called back and read it back afterwards:
+		// the module may pause, kill or update its context from inside the callback, and
+		// the callers write the returned context back
+		k.SetRequestContext(ctx, requestContextID, requestContext)
 		k.Callback(ctx, requestContextID)
+		requestContext, _ = k.GetRequestContext(ctx, requestContextID)
 	}
 
 	batchState := types.BatchState{
